@@ -130,6 +130,9 @@ pub struct MisusePlan {
     pub call: u8,
     /// index (mod number of eligible jobs) into the sorted list of jobs for which the call is illegal
     pub pick: u32,
+    /// issue the call before `event_startup` (calls 0..=3 only)
+    #[serde(default)]
+    pub before_startup: bool,
 }
 
 #[derive(Serialize, Deserialize, Clone, Debug, PartialEq)]
